@@ -103,6 +103,7 @@ class Beh:
     zero_cols: bool = False
     cancel_raises: bool = False
     big: int = 0  # pad emitted strings to about this many bytes (crosses shm/external thresholds)
+    cancel_logs: list[tuple] = field(default_factory=list)  # ("log", level, text, extras) ops the on_cancel hook emits for the client
     alias_in: int = 0  # exchange: 1/2 = answer with the INPUT's own arrays (zero-copy: the output aliases the input's buffers)
 
 
@@ -291,6 +292,8 @@ def run_step(state: Any, out: OutputCollector, ctx: CallContext, inp: AnnotatedB
 def on_cancel(state: Any, ctx: CallContext) -> None:
     w = world()
     w.record("cancel", state.tag, state.pos, id(state))
+    for op in w.beh[state.tag].cancel_logs:
+        _do_log(ctx.client_log, op)
     if w.beh[state.tag].cancel_raises:
         raise RuntimeError("on_cancel boom")
 
